@@ -16,7 +16,8 @@ EXPLANATION = (
     "attribute.  R01.2: global/nonlocal declarations have binding handlers in the scope visitors (visitor x grammar "
     "coverage).  R01.3: the single-file shortcut of rename returns true only under 'holding scope is a function' and "
     "'the name is an assigned name'.  R01.4: at a call keyword the offset evaluator never falls through to generic "
-    "scope evaluation.  Alpha-equivalence of the rewritten program is a runtime fact and is not decided."
+    "scope evaluation.  R01.5: ChangeCollector applies edits sorted by offset over the original text with an advancing "
+    "watermark and keeps the tail.  R01.6: a module rename appends '.py' exactly for files.  Alpha-equivalence of the rewritten program is a runtime fact and is not decided."
 )
 ASSUMPTIONS = ["scope classes are the subclasses of rope.base.pyscopes.Scope found in the working tree"]
 
@@ -160,3 +161,61 @@ def check(ctx, res) -> None:
             "on the call-keyword path every exit returns inside the branch: a keyword is never evaluated as a scope name" if not leak else
             "when the offset is a call keyword (f(width=...)) a path falls through to the generic scope evaluation: the keyword resolves to a same-named "
             "variable of the calling scope, so renaming that variable also rewrites the keyword and the callee receives a different keyword argument")
+
+    change_collector_rule(ctx, res, "R01.5")
+
+    # ---- R01.6 renaming a module keeps its kind: '.py' is appended exactly when the resource is a file, and the new
+    # location is built from the resource's own parent
+    rm = idx.need_func("rope.refactor.rename.Rename._rename_module")
+    cfg = CFG(rm.node)
+    ext = [n for n in cfg.nodes if n.kind == "stmt" and isinstance(n.ast, (ast.Assign, ast.AugAssign)) and any(
+        isinstance(x, ast.Constant) and x.value == ".py" for x in ast.walk(n.ast))]
+    rparam = first_param(rm.node)
+    ok = bool(ext) and all(any(isinstance(t, ast.Call) and call_name(t) == "is_folder" and isinstance(t.func.value, ast.Name)
+                               and t.func.value.id == rparam and not pol for t, pol in cfg.guards(n.id)) for n in ext)
+    parent_ok = any(isinstance(x, ast.Attribute) and x.attr == "parent" and isinstance(x.value, ast.Name) and x.value.id == rparam
+                    for x in ast.walk(rm.node))
+    res.add("R01.6", "_rename_module|extension", ok and parent_ok, rm.where,
+            "'.py' is appended exactly when the renamed resource is a file, below the resource's own parent folder" if ok and parent_ok else
+            "Rename._rename_module does not append '.py' exactly for files (or does not build the new location from the resource's parent): renaming a "
+            "module produces a file that is no longer importable under the new name, or renames a package folder to 'name.py'")
+
+
+def change_collector_rule(ctx, res, rule: str) -> None:
+    """Every text-rewriting refactoring assembles its result with ChangeCollector.  For arbitrary insertion order the
+    edits must be applied in offset order over the ORIGINAL text: sort before the loop, piece = text[watermark:start] +
+    replacement, watermark = end, and the tail text[watermark:] is appended."""
+    idx = ctx.idx
+    gc = idx.need_func("rope.base.codeanalyze.ChangeCollector.get_changed")
+    cfg = CFG(gc.node)
+    loops = [n for n in cfg.nodes if n.kind == "loop" and isinstance(n.ast, ast.For) and any(is_self_attr(x, "changes") for x in ast.walk(n.ast.iter))]
+    if not loops:
+        raise AnalysisError("anchor=ChangeCollector.get_changed: loop over self.changes not found")
+    lp = loops[0]
+    sorted_inline = isinstance(lp.ast.iter, ast.Call) and call_name(lp.ast.iter) == "sorted"
+    is_sort = lambda n: n.ast is not None and n.kind == "stmt" and any(
+        isinstance(c.func, ast.Attribute) and c.func.attr == "sort" and is_self_attr(c.func.value, "changes") for c in calls_in(n.ast))
+    ok_sort = sorted_inline or cfg.must_pass_through(cfg.entry.id, lp.id, is_sort)
+    res.add(rule, "ChangeCollector|sorted", ok_sort, gc.where,
+            "edits are sorted by offset before they are applied" if ok_sort else
+            "ChangeCollector.get_changed applies the edits in insertion order: with edits added out of order the pieces overlap and text is duplicated or lost")
+    # unpacked start/end/text of one change
+    S = E = None
+    for x in walk_local(lp.ast):
+        if isinstance(x, ast.Assign) and isinstance(x.targets[0], ast.Tuple) and len(x.targets[0].elts) == 3:
+            S, E = x.targets[0].elts[0].id, x.targets[0].elts[1].id
+    if isinstance(lp.ast.target, ast.Tuple) and len(lp.ast.target.elts) == 3:
+        S, E = lp.ast.target.elts[0].id, lp.ast.target.elts[1].id
+    marks = {x.targets[0].id for x in walk_local(lp.ast) if isinstance(x, ast.Assign) and isinstance(x.targets[0], ast.Name)
+             and isinstance(x.value, ast.Name) and x.value.id == E} if E else set()
+    piece = any(isinstance(x, ast.Subscript) and is_self_attr(x.value, "text") and isinstance(x.slice, ast.Slice)
+                and isinstance(x.slice.lower, ast.Name) and x.slice.lower.id in marks
+                and isinstance(x.slice.upper, ast.Name) and x.slice.upper.id == S for x in ast.walk(lp.ast))
+    tail = any(isinstance(x, ast.Subscript) and is_self_attr(x.value, "text") and isinstance(x.slice, ast.Slice)
+               and isinstance(x.slice.lower, ast.Name) and x.slice.lower.id in marks and x.slice.upper is None
+               for st in gc.node.body if st is not lp.ast for x in ast.walk(st))
+    ok = bool(S) and bool(marks) and piece and tail
+    res.add(rule, "ChangeCollector|pieces", ok, gc.where,
+            "each piece is original[watermark:start] + replacement, the watermark advances to the edit's end, and the tail is kept" if ok else
+            "ChangeCollector.get_changed does not assemble original[watermark:start] + replacement with watermark = end and the trailing "
+            "original[watermark:]: untouched text between or after the edits is lost or duplicated")
